@@ -329,6 +329,18 @@ def _may_be_root(prog: Program, fn: Func, var: str, at: ast.AST, roots: Set[str]
             return True
         if isinstance(n, ast.Starred):
             continue
+    # ... or of what a repository generator yields when it is handed the module: a helper that yields its own argument
+    # (`def iter_bodies(root): yield root; ..`) makes the module an element, whatever its name suggests
+    for c in ast.walk(loop.iter):
+        if isinstance(c, ast.Call):
+            r = prog.resolve_call(c.func, fn.mod, fn)
+            if r and r[0] == "fn":
+                callee = r[1]
+                for i_, a in enumerate(c.args):
+                    if isinstance(a, ast.Name) and a.id in roots and i_ < len(callee.posparams):
+                        p_ = callee.posparams[i_]
+                        if any(isinstance(y, ast.Yield) and isinstance(y.value, ast.Name) and y.value.id == p_ for y in walk_own(callee.node)):
+                            return True
     if isinstance(loop.iter, ast.Call) and (prog.dotted(loop.iter.func) or "") in ("itertools.chain",) and any(
             isinstance(a, ast.Name) and a.id in roots for a in loop.iter.args):
         return False   # chain(root, ..) iterates the fields of root, not root
